@@ -40,7 +40,7 @@ use core::{fmt, ptr, str};
 /// A arbitrary length sequence of bit-packed symbols
 ///
 /// Stored on the heap
-#[derive(Debug, PartialEq, Eq, PartialOrd, Ord)]
+#[derive(Debug, PartialEq, Eq)]
 #[cfg_attr(feature = "serde", derive(Serialize, Deserialize))]
 #[repr(transparent)]
 pub struct Seq<A: Codec> {
@@ -52,6 +52,22 @@ impl<A: Codec> From<Seq<A>> for usize {
     fn from(slice: Seq<A>) -> usize {
         debug_assert!(slice.bv.len() <= usize::BITS as usize);
         slice.bv.load_le::<usize>() //.wrapping_shr(shift)
+    }
+}
+
+/// Sequences are ordered colexicographically, like `Kmer`s: the last symbol is most significant
+impl<A: Codec> Ord for Seq<A> {
+    fn cmp(&self, other: &Self) -> core::cmp::Ordering {
+        let a = self.bv.rchunks_exact(A::BITS as usize);
+        let b = other.bv.rchunks_exact(A::BITS as usize);
+        a.map(BitField::load_le::<u8>)
+            .cmp(b.map(BitField::load_le::<u8>))
+    }
+}
+
+impl<A: Codec> PartialOrd for Seq<A> {
+    fn partial_cmp(&self, other: &Self) -> Option<core::cmp::Ordering> {
+        Some(self.cmp(other))
     }
 }
 
